@@ -21,7 +21,10 @@ RULE = (
 	'attribute, header, member, import, blank; split-line: a line end inserted in front of a token) and the three near-miss operators built from '
 	'the legal spellings (near-miss-spacing: the blank of `not in` / `not equals` / `not pad_last` / `abstract struct` / `inline struct` removed, '
 	'doubled, turned into a tab; respace: the same at every gap between two tokens, a blank inserted where there is none; near-miss-word: every word '
-	'of the grammar capitalised, upper-cased, truncated, doubled), whose results are ill-formed exactly when the '
+	'of the grammar capitalised, upper-cased, truncated, doubled) and the width sweep (every integer type in a type position - alias, enum base, '
+	'member type, array element, sizeof, make_const, make_reserved - with both signs and every width 0..140 other than 8/16/32/64, 256, 512 and '
+	'leading-zero spellings such as uint08, int016, uint0064; quick tier: the neighbours 9, 12, 15, 17, 23, 24, 33, 39, 65, 71, 72, one '
+	'leading-zero spelling and four more widths per document), whose results are ill-formed exactly when the '
 	'Lean language model rejects them. A case is distinct by the corrupted text; non-trivial = the real parser ran on it. '
 	'Command line: the corrupted text as a file reached through imports of a valid root, in six layouts: nested directory; a name that differs '
 	'only in letter case from an earlier well-formed import, from the root, in a directory component; a name equal to an earlier one only under '
@@ -77,6 +80,7 @@ class Corruptor:
 		self.operators = ctx.driver.ask('ops').split(',')
 		# operators that move a line end: not every result is ill-formed, the language model says which are
 		self.arbitrated = [name for name in ctx.driver.ask('arbitrated-ops').split(',') if name]
+		self.sweep_widths = ctx.driver.ask('sweep-widths').split(',')
 		self.cli_by_operator = {}
 		self.reported = {'corr': 0, 'property': 0}
 
@@ -138,6 +142,22 @@ class Corruptor:
 					picked += ctx.rng.sample(sites, min(len(sites), 3 if thorough else 1))
 				if not thorough and len(picked) > 8:
 					picked = ctx.rng.sample(picked, 8)
+			elif 'width-sweep' == operator:
+				# per site 2 signs x the width texts of the model; the neighbours of the supported widths and a leading-zero spelling always,
+				# the other widths sampled (quick) or each once per document (thorough), at a site and with a sign chosen at random
+				classes = None
+				widths = self.sweep_widths
+				per_site = 2 * len(widths)
+				site_count = count // per_site if per_site else 0
+				picked = []
+				if site_count:
+					wanted = [widths.index(text) for text in ('9', '12', '15', '17', '23', '24', '33', '39', '65', '71', '72')]
+					wanted.append(widths.index(ctx.rng.choice(['08', '016', '032', '0064', '008'])))
+					others = [index for index in range(len(widths)) if index not in wanted]
+					wanted += others if thorough else ctx.rng.sample(others, 4)
+					for index in wanted:
+						picked.append((ctx.rng.randrange(site_count) * 2 + ctx.rng.randrange(2)) * len(widths) + index)
+					picked = sorted(set(picked))
 			else:
 				classes = None
 				quota = {'near-miss-spacing': (12, 150), 'respace': (6, 60), 'near-miss-word': (8, 80)}.get(operator, (5, 60))
@@ -394,7 +414,8 @@ MANIFEST = {
 		'themselves are defined in Model/Cats/Corrupt.lean. Model and operators are tied to catbuffer.lark / CatsLarkParser.py by a differential '
 		'run: every shipped .cats file and generated documents x 14 operators x applicable sites must be rejected by lark with a position; x 3 '
 		'operators that move a line end (join-lines, join-lines-flush, split-line) and 3 near-miss operators (near-miss-spacing, respace, '
-		'near-miss-word), where lark must reject exactly what the Lean language model rejects; and '
+		'near-miss-word) and the width sweep (both signs x every width 0..140 but 8/16/32/64, 256, 512, leading-zero spellings, at every site '
+		'kind of an integer type), where lark must reject exactly what the Lean language model rejects; and '
 		'through `python -m catparser` a corrupted file reached by import must give a non-zero exit status and no output file.'),
 	'level_note': (
 		'Trusted: Lean kernel + {propext, Classical.choice, Quot.sound}; hand-written model and operator definitions tied by differential execution '
